@@ -83,6 +83,9 @@ def hooks():
         v = ev.ev(n.args[0])
         if v.comps and v.comps[0] == Poly.atom("SAREA"):
             return SV("scal", [Poly.atom("SGN")])
+        if v.kind in ("scal", "cyc") and len(v.comps) == 1:
+            # sign() is odd: canonicalise through an odd function atom
+            return SV(v.kind, [fatom("sign", v.comps[0])], v.summed)
         raise NotInFragment("sign of a non-orientation quantity")
 
     def length(ev, n):
